@@ -214,6 +214,10 @@ theorem evalPartial_identity_dtype (st0 : St) (n : Node) (v : Nat) (x o : Name)
   rw [hl]
   simp only [runEvaluator, evIdentity, hin, hout]
   intro y dt h
+  by_cases hgi : st0.isGraphInput x = true
+  · rw [if_pos hgi] at h
+    exact Or.inl h
+  rw [if_neg hgi] at h
   simp only [St.getInfo, St.setInfo, St.setSym, St.note, lookupA_insert] at h
   by_cases hy : y = x
   · subst hy
